@@ -344,7 +344,18 @@ class SimConn(object):
         now = self.clock.seconds()
         self.s2c.append((now, data))
         self.net.log.append(("s2c", now, self.id, data))
-        self.client_proto.dataReceived(data)
+        try:
+            self.client_proto.dataReceived(data)
+        except StepCapExceeded:
+            raise
+        except Exception as e:
+            # what the real reactor does with an exception escaping dataReceived: log it and drop the connection
+            # (twisted.internet.base: _doReadOrWrite -> _disconnectSelectable).  Recorded like any error escaping a
+            # reactor event.
+            import traceback as _tb
+            self.clock.errors.append((now, "net.s2c.dataReceived", type(e).__name__, _tb.format_exc(limit=12)))
+            self.net.log.append(("data_received_raised", now, self.id, type(e).__name__))
+            self._client_conn_lost(e)
 
     def server_close(self, clean=True):
         """The server closes the connection after what it already sent."""
